@@ -31,6 +31,7 @@ var (
 	kindsFlag  = flag.String("kinds", "s,v,m", "streams to run")
 	fixFlag    = flag.String("fx", "11111111111", "repairs present in the implementation (F14 F15 F16 F17 F19 F20 F21 F22 F23 F24 F25)")
 	countFlag  = flag.Int("count", 0, "histories per stream (0: by tier)")
+	saltFlag   = flag.Int("salt", 0, "varies the generated streams between the properties that share this harness")
 )
 
 func init() { testing.Init() }
@@ -50,7 +51,7 @@ func run(out *Out, r *Rand, tier string, replay []string) {
 var seedFlag uint64
 
 func histRand(stream string, i int) *Rand {
-	return NewRand(seedFlag*1000003 + uint64(i)*7919 + uint64(stream[0]))
+	return NewRand(seedFlag*1000003 + uint64(i)*7919 + uint64(stream[0]) + uint64(*saltFlag)*104729)
 }
 
 func child(tier string, replay []string) {
@@ -165,7 +166,7 @@ func (h *hist) implLine() string {
 // completed (or cut short by a crash / hang) and the index to continue from.
 func runChild(exe, stream, tier, replay string, from, to int, seed string, outDir string) ([]*hist, int) {
 	args := []string{"-child", "-out", filepath.Join(outDir, "child"), "-seed", seed, "-tier", tier,
-		"-stream", stream, "-from", fmt.Sprint(from), "-to", fmt.Sprint(to), "-fx", *fixFlag}
+		"-stream", stream, "-from", fmt.Sprint(from), "-to", fmt.Sprint(to), "-fx", *fixFlag, "-salt", fmt.Sprint(*saltFlag)}
 	if replay != "" {
 		args = append(args, "-replay", replay)
 	}
@@ -265,9 +266,9 @@ func parent(out *Out, tier string, replay []string) {
 	if replay != nil {
 		jobs = []job{{"replay", len(replay)}}
 	} else {
-		per := map[string]int{"s": len(scenarios), "v": 260, "m": 420}
+		per := map[string]int{"s": len(scenarios), "v": 900, "m": 1300}
 		if tier == "thorough" {
-			per = map[string]int{"s": len(scenarios), "v": 4000, "m": 6000}
+			per = map[string]int{"s": len(scenarios), "v": 15000, "m": 22000}
 		}
 		for _, k := range strings.Split(*kindsFlag, ",") {
 			n := per[k]
